@@ -1,6 +1,9 @@
 """C01 — see DESIGN.md section 5 "C01" and checks/lkcommon.py."""
 from checks import lkcommon
+from lib import seqtie
 
 
 def run(ctx):
     lkcommon.run(ctx, "C01")
+    if not ctx.replay:
+        seqtie.initfile_stage(ctx, None, "C01")     # T1 stage "boot on an adversarial state file" (Model/SeqFile.v)
